@@ -121,6 +121,84 @@ def exec_report_harness(I, shape_no):
     return cl
 
 
+def cancel_reject_harness(I):
+    """fix_cxlrep_reject_msg for a cancel or a replace request of any order state and any reported status: the reject
+    answers that request (ClOrdID / OrigClOrdID copied, CxlRejResponseTo by request type), carries the status, and the
+    real order object processes it without raising."""
+    c = I.ctx
+    o, v = c17.mk_order(I)
+    FM = I.repo.get("asyncfix.msgtype.FMsg")
+    kind = c.choose(3, "request_type")
+    mtype = ["F", "G", "D"][kind]
+    req = sc.mk_msg(I, "q", mtype=mtype, fixed={"11": c.inp_str("q_v11"), "41": c.inp_str("q_v41")})
+    req.f["_msg_type"] = I.class_attr(FM, {"F": "ORDERCANCELREQUEST", "G": "ORDERCANCELREPLACEREQUEST", "D": "NEWORDERSINGLE"}[mtype])
+    OS = I.repo.get("asyncfix.protocol.common.FOrdStatus")
+    st = c.inp_str("ord_status")
+    ord_status = I.sym_enum(OS, st.t)
+    ft = Obj(I.repo.get(FT), {"registered_orders": Registered(), "schema": None, "_order_id": c.inp_int("order_counter"),
+                              "_exec_id": c.inp_int("exec_counter"), "_order_ids": RootIds()})
+    out = sc.run(I, I.getattr(ft, "fix_cxlrep_reject_msg"), [req, ord_status])
+    c.notes.append(("outcome", "ret" if out[0] == "ret" else "raise:" + out[1].name()))
+    if mtype == "D":
+        return [("reject.only_for_cancel_or_replace_requests", out[0] == "raise" and out[1].name() == "AssertionError")]
+    cl = [("reject.fabricated_for_every_status", out[0] == "ret")]
+    if out[0] != "ret":
+        return cl
+    m = out[1]
+    cl.append(("reject.answers_the_request", And(Eq(c17.tag(m, 11), SStr(z3.String("q_v11"))), Eq(c17.tag(m, 41), SStr(z3.String("q_v41"))),
+                                                 Eq(c17.tag(m, 434), "1" if mtype == "F" else "2"), Eq(c17.tag(m, 39), st))))
+    cl.append(("reject.is_an_order_cancel_reject", str(getattr(m.f["_msg_type"], "value", m.f["_msg_type"])) == "9"))
+    o2 = sc.run(I, I.getattr(o, "process_cancel_rej_report"), [m])
+    cl.append(("reject.processed_by_the_order_without_error", o2[0] == "ret"))
+    return cl
+
+
+def session_factories_harness(I):
+    """msg_sequence_reset / msg_resend_request / msg_test_request / msg_heartbeat: type and fields as asked for."""
+    c = I.ctx
+    ft = Obj(I.repo.get(FT), {"registered_orders": Registered(), "schema": None, "_order_id": 0, "_exec_id": 0, "_order_ids": RootIds()})
+    which = c.choose(4, "factory")
+
+    def mt(m):
+        return str(getattr(m.f["_msg_type"], "value", m.f["_msg_type"]))
+    if which == 0:
+        n, new = c.inp_int("msg_seq_num"), c.inp_int("new_seq_no")
+        gf = c.choose(2, "gap_fill") == 1
+        out = sc.run(I, I.getattr(ft, "msg_sequence_reset"), [n, new, gf])
+        ok = out[0] == "ret"
+        cl = [("factory.sequence_reset.no_raise", ok)]
+        if ok:
+            m = out[1]
+            cl.append(("factory.sequence_reset.fields", And(mt(m) == "4", Eq(c17.tag(m, 34), SStr(itos(n.t))), Eq(c17.tag(m, 36), SStr(itos(new.t))),
+                                                            Eq(c17.tag(m, 123), "Y" if gf else "N"))))
+        return cl
+    if which == 1:
+        b, e = c.inp_int("begin"), c.inp_int("end")
+        out = sc.run(I, I.getattr(ft, "msg_resend_request"), [b, e])
+        ok = out[0] == "ret"
+        cl = [("factory.resend_request.no_raise", ok)]
+        if ok:
+            m = out[1]
+            cl.append(("factory.resend_request.fields", And(mt(m) == "2", Eq(c17.tag(m, 7), SStr(itos(b.t))), Eq(c17.tag(m, 16), SStr(itos(e.t))))))
+        return cl
+    rid = c.inp_str("test_req_id")
+    if which == 2:
+        out = sc.run(I, I.getattr(ft, "msg_test_request"), [rid])
+        ok = out[0] == "ret"
+        cl = [("factory.test_request.no_raise", ok)]
+        if ok:
+            cl.append(("factory.test_request.fields", And(mt(out[1]) == "1", Eq(c17.tag(out[1], 112), rid))))
+        return cl
+    given = c.choose(2, "id_given") == 1
+    out = sc.run(I, I.getattr(ft, "msg_heartbeat"), [rid] if given else [])
+    ok = out[0] == "ret"
+    cl = [("factory.heartbeat.no_raise", ok)]
+    if ok:
+        t112 = c17.tag(out[1], 112)
+        cl.append(("factory.heartbeat.fields", And(mt(out[1]) == "0", Eq(t112, rid) if given else (t112 is None))))
+    return cl
+
+
 def mustfail(I):
     c = I.ctx
     o, v = c17.mk_order(I)
@@ -137,12 +215,12 @@ def mustfail(I):
 HELPER = Bounded(
     "fabricated_traffic_validates_and_simulated_acceptor_matches_a_real_one", "c20_tester",
     {"parts": ["reports", "session", "fidelity"], "pair_sample": 25, "script_len": 2},
-    {"parts": ["reports", "session", "fidelity"], "script_len": 4},
+    {"parts": ["reports", "session", "fidelity"], "script_len": 5},
     "the real FIXTester with tests/FIX44.xml as schema: 11 order states reached through the helper x 25 sampled (thorough: "
     "all 255) ExecType / OrdStatus pairs x 15 quantity / price argument variants x ClOrdID / OrigClOrdID choices - what the "
     "helper lets through validates, keeps CumQty + LeavesQty <= OrderQty, LeavesQty 0 when finished, fresh ExecID, one "
     "OrderID per order (also for two reports in a row), is processed by the order without any exception; cancel rejects "
-    "for every status; 14 session-message factory calls validate; all session scripts of up to 2 (4) actions out of 5 "
+    "for every status; 14 session-message factory calls validate; all session scripts of up to 2 (5) actions out of 5 "
     "(application message either way, TestRequest either way, Heartbeat) between Logon and Logout, once against the "
     "helper's simulated acceptor and once against AsyncFIXDummyServer fed through its own socket_read_task: same frames "
     "both ways (SendingTime / lengths / CheckSum / clock-valued TestReqID masked), same states and counters after every step")
@@ -152,6 +230,9 @@ TASKS = [
     Task("fix_exec_report_msg[%s]" % nm, exec_report_harness_for(k), cfg,
          [FT + ".fix_exec_report_msg", FT + "._next_exec_id", FT + "._next_order_id"], timeout_ms=30000, max_paths=200000)
     for k, nm in enumerate(SHAPE_NAMES)] + [
+    Task("fix_cxlrep_reject_msg", cancel_reject_harness, cfg, [FT + ".fix_cxlrep_reject_msg"]),
+    Task("session_factories", session_factories_harness, cfg, [FT + ".msg_sequence_reset", FT + ".msg_resend_request",
+                                                               FT + ".msg_test_request", FT + ".msg_heartbeat"]),
     Task("mustfail", mustfail, cfg, [], expect_refuted=True),
 ]
 for _t_ in TASKS:
